@@ -5,6 +5,8 @@ import VlsModel.Gen.FnPsbt
 import VlsModel.Gen.BoltDerive
 import VlsModel.Gen.FnMsgsVec
 import VlsModel.Gen.FnMsgsIo
+import VlsModel.Gen.FnMsgsIo2
+import VlsModel.Gen.FnWireModel
 import VlsModel.Lemmas.FnGen
 /-
 C19 — the frame length check of `vls-protocol/src/msgs.rs` tied to the source by rs2lean.
@@ -447,5 +449,76 @@ theorem C19_fn_write_serial_model (seq dbid : Nat) (peer : Bytes) :
   · simp [write_serial_response_header, wAll, writeSerialResponse, toNb, d, b]
 
 end MsgsIo
+
+/-! ## msgs.rs (round 10, b8): the typed frame writer `write` and the frame reader `read` (`Gen/FnMsgsIo2.lean`, targets
+`translate/fn_targets/MsgsIo2.b8.json`).  `write` is `T::TYPE` (an uninterpreted `u16` constant of the instantiation) in big
+endian, then `to_vec(&value)` (external: the derive-generated encoder, `C19_gen_as_vec`), handed to the *generated*
+`write_vec`; `read` is `read_u32_be` followed by `from_reader(reader, len)` (external, written as a receiver-updating method
+of the reader).  Two normalisations: `buf.append(&mut val_buf)` as `extend_from_slice`, `from_reader(reader, len)` as
+`reader.from_reader(len)`. -/
+section MsgsIo2
+open VlsModel.Gen.FnMsgsIo2
+
+/-- what `from_reader` is to the reader, for a decoder `dec` of the `len` framed bytes (type ‖ payload): it consumes exactly
+    `len` bytes (EOF otherwise) and leaves the rest -/
+def frOf {M : Type} (dec : List Nat → Rs.M M) (r : List Nat) (len : Nat) : Rs.M (List Nat × M) :=
+  if len ≤ r.length then (do let m ← dec (r.take len); pure (r.drop len, m)) else .error (.err "Error::Io")
+
+/-- **C19_fn_write.** the generated `write`: one frame `len ‖ type ‖ to_vec(value)`, `len` = 2 + payload length as `u32`;
+    a failing encoder writes nothing -/
+theorem C19_fn_write {T : Type} (ty : Nat) (tv : T → Rs.M (List Nat)) (w : List Nat) (v : T) :
+    Gen.FnMsgsIo2.write ty tv wAll w v
+      = (do let b ← tv v
+            pure (w ++ Rs.toBeBytes 4 ((Rs.toBeBytes 2 ty ++ b).length % 2 ^ 32) ++ (Rs.toBeBytes 2 ty ++ b))) := by
+  simp only [Gen.FnMsgsIo2.write, Gen.FnMsgsIo2.write_vec, wAll, Rs.utrunc, Rs.U32_MAX]
+  cases tv v <;> simp [bind, Except.bind, pure, Except.pure]
+
+/-- **C19_fn_read.** the generated `read`: the length prefix, then `from_reader` on the reader behind it with that length;
+    the reader returned is the one `from_reader` left -/
+theorem C19_fn_read {R : Type} (rd : R → Rs.M (R × Nat)) (fr : R → Nat → Rs.M (R × Message)) (r : R) :
+    Gen.FnMsgsIo2.read rd fr r = (do let t ← rd r; fr t.1 t.2) := by
+  simp only [Gen.FnMsgsIo2.read]
+  cases rd r <;> simp [bind, Except.bind, pure, Except.pure]
+  rename_i t
+  cases fr t.1 t.2 <;> rfl
+
+/-- **C19_fn_read_write.** round trip of the generated pair: what `write` put on the wire for `(T::TYPE, value)`, followed
+    by any further bytes, is read by `read` as: exactly the bytes `type ‖ to_vec(value)` handed to the frame decoder, the
+    stream left at the next frame — for every payload with `2 + len < 2^32` (beyond it the `as u32` of `write_vec`
+    truncates the prefix: `C19_fn_write`). -/
+theorem C19_fn_read_write {T : Type} (ty : Nat) (tv : T → Rs.M (List Nat)) (dec : List Nat → Rs.M Message) (v : T)
+    (b rest : List Nat) (hb : tv v = .ok b) (hl : 2 + b.length < 2 ^ 32) :
+    (do let s ← Gen.FnMsgsIo2.write ty tv wAll [] v; Gen.FnMsgsIo2.read (rBe 4) (frOf dec) (s ++ rest))
+      = (do let m ← dec (Rs.toBeBytes 2 ty ++ b); pure (rest, m)) := by
+  have hlen : (Rs.toBeBytes 2 ty ++ b).length = 2 + b.length := by simp [toBeBytes_length]
+  have hm : (2 + b.length) % 2 ^ 32 = 2 + b.length := Nat.mod_eq_of_lt hl
+  rw [C19_fn_write, hb]
+  simp only [Rs.bind_ok, List.nil_append, hlen, hm, List.append_assoc, C19_fn_read, pure_bind]
+  rw [rBe_append 4 (Rs.toBeBytes 4 (2 + b.length)) _ (toBeBytes_length _ _)]
+  have hv : Rs.fromBeBytes (Rs.toBeBytes 4 (2 + b.length)) = 2 + b.length := by
+    rw [be4]; simp [Rs.fromBeBytes]; omega
+  simp only [Rs.bind_ok, hv, frOf]
+  have hle : 2 + b.length ≤ (Rs.toBeBytes 2 ty ++ (b ++ rest)).length := by simp [toBeBytes_length]
+  have ht : (Rs.toBeBytes 2 ty ++ (b ++ rest)).take (2 + b.length) = Rs.toBeBytes 2 ty ++ b := by
+    rw [← List.append_assoc, ← hlen, List.take_left']; rfl
+  have hd : (Rs.toBeBytes 2 ty ++ (b ++ rest)).drop (2 + b.length) = rest := by
+    rw [← List.append_assoc, ← hlen, List.drop_left']; rfl
+  simp only [hle, if_true, ht, hd]
+
+example : Gen.FnMsgsIo2.write 7 (fun (v : List Nat) => .ok v) wAll [] [9, 8] = .ok [0, 0, 0, 4, 0, 7, 9, 8] := by
+  rw [C19_fn_write]; simp [be2, be4]
+
+end MsgsIo2
+
+/-! ## model.rs (round 10, b8): the two wrappers that are inside the subset (`Gen/FnWireModel.lean`) -/
+section WireModel
+open VlsModel.Gen.FnWireModel
+
+/-- **C19_fn_wrappers.** `SerBoltTlvWriteWrap::from` only wraps (the tuple struct is its component), and
+    `LdkWriterWriteAdaptor::flush` is `Ok(())` without touching the writer: neither can change a byte on the wire -/
+theorem C19_fn_wrappers {T W : Type} (t : T) (w : W) :
+    SerBoltTlvWriteWrap.«from» t = t ∧ LdkWriterWriteAdaptor.flush w = .ok w := ⟨rfl, rfl⟩
+
+end WireModel
 
 end VlsModel.Props.C19Fn
